@@ -178,6 +178,96 @@ from pyvc.contract import LemmaTask
 TASKS.append(LemmaTask("orientation-survives-reduction", [_d >= 0, _d < 360], _d - 360 * z3.ToReal(z3.ToInt(_d / 360)) == _d,
                        "an orientation already in [0, 360) - what the constructor stores - is unchanged by the reduction applied on load"))
 
+# ---------------------------------------------------------------------------------------------------------------------
+# from_seismic_recording_3c, save, load: the copy constructor copies every component through TimeSeries.from_timeseries (proved above) and hands the
+# orientation and meta on; save writes exactly _to_dict(); load builds the recording from exactly what json.load returns.
+def _m_from_timeseries_obj(ex, st, args, kw, node):
+    """tseries.from_timeseries(tseries) on a symbolic component: a fresh TimeSeries with the same content (contract FROM_TS)"""
+    src = args[-1]
+    n = arr_len("TimeSeries", "amplitude", src.id)
+    j = z3.Int("j!cp")
+    amp = ex.alloc_arr(st, (n,), z3.Lambda([j], arr_at("TimeSeries", "amplitude", src.id, j)), "real", "fresh", tag="copy")
+    return ex.alloc_obj(st, "TimeSeries", {"amplitude": amp, "dt_in_seconds": fld("TimeSeries", "dt_in_seconds", R)(src.id)}, "fresh")
+
+
+def _m_3c_ctor_plain(ex, st, args, kw, node):
+    return ex.alloc_obj(st, "SeismicRecording3C", {"ns": args[0], "ew": args[1], "vt": args[2], "degrees_from_north": kw["degrees_from_north"],
+                                                   "meta": kw.get("meta", NONE)}, "fresh")
+
+
+def _copy3_inputs(ex, st):
+    facts = _td_inputs(ex, st)
+    st.env["seismic_recording_3c"] = st.env.pop("self")
+    st.env["cls"] = FuncV(_m_3c_ctor_plain, "SeismicRecording3C")
+    return facts
+
+
+_cp = lambda comp: (f"len(result.{comp}.amplitude) == len(seismic_recording_3c.{comp}.amplitude) and "
+                    f"forall(i, 0, len(result.{comp}.amplitude), result.{comp}.amplitude[i] == seismic_recording_3c.{comp}.amplitude[i]) and "
+                    f"result.{comp}.dt_in_seconds == seismic_recording_3c.{comp}.dt_in_seconds and fresh_samples(result.{comp})")
+COPY3 = Contract(qual="hvsrpy.seismic_recording_3c.SeismicRecording3C.from_seismic_recording_3c", params=["cls", "seismic_recording_3c"], make_inputs=_copy3_inputs,
+                 ghost={"fresh_samples": FuncV(lambda ex, st, a, k, n_: z3.BoolVal(isinstance(a[0], ORef) and st.heap[st.heap[a[0].oid].fields["amplitude"].sid].owner == "fresh"), "fresh_samples")},
+                 ensures=[_cp("ns"), _cp("ew"), _cp("vt"), "result.degrees_from_north == seismic_recording_3c.degrees_from_north"], modifies=[],
+                 notes="ns -> ns, ew -> ew, vt -> vt, each through TimeSeries.from_timeseries (fresh sample storage); orientation handed to the constructor")
+TASKS.append(FunctionTask(COPY3, registry={"TimeSeries.from_timeseries": FuncV(_m_from_timeseries_obj, "TimeSeries.from_timeseries")},
+                          clauses=["the copy constructor copies every component and shares no sample storage"]))
+
+
+class _File:
+    pass
+
+
+def _m_open(ex, st, args, kw, node):
+    return sym_obj(ex, st, "File", {"name": args[0], "mode": args[1]}, owner="fresh")
+
+
+def _m_json_dump(ex, st, args, kw, node):
+    st.env["__dumped"] = Tup((args[0], args[1]))
+    return NONE
+
+
+def _m_json_load(ex, st, args, kw, node):
+    st.env["__loaded_from"] = args[0]
+    return st.env["__file_content"]
+
+
+_TD_CALL = Contract(qual=TO_DICT.qual, params=["self"], ensures=[], modifies=[],
+                    make_result=lambda ex, st, env: DictV({"<the dictionary _to_dict returns for>": env["self"]}))
+
+
+def _save_inputs(ex, st):
+    facts = _td_inputs(ex, st)
+    st.env["fname"] = StrV("<fname>")
+    return facts
+
+
+SAVE = Contract(qual="hvsrpy.seismic_recording_3c.SeismicRecording3C.save", params=["self", "fname"], make_inputs=_save_inputs, modifies=[],
+                ghost={"dumped": FuncV(lambda ex, st, a, k, n_: z3.BoolVal(isinstance(st.env.get("__dumped"), Tup) and isinstance(st.env["__dumped"][0], DictV)
+                                                                             and st.env["__dumped"][0].items.get("<the dictionary _to_dict returns for>") is st.env["self"]
+                                                                             and st.heap[st.env["__dumped"][1].oid].fields["name"] is st.env["fname"]
+                                                                             and st.heap[st.env["__dumped"][1].oid].fields["mode"].s == "w"), "dumped")},
+                ensures=["dumped()"], notes="json.dump receives exactly self._to_dict() and the file opened for writing under the name given")
+SAVE.ghost_state = ("__dumped",)
+TASKS.append(FunctionTask(SAVE, module_env={"open": FuncV(_m_open, "open"), "json": ModV("json", {"dump": FuncV(_m_json_dump, "json.dump")})},
+                          registry={"SeismicRecording3C._to_dict": _TD_CALL}, clauses=["save writes the recording's dictionary"]))
+
+
+def _load_inputs(ex, st):
+    st.env["fname"] = StrV("<fname>")
+    st.env["__file_content"] = DictV({"<what json.load returned>": z3.IntVal(1)})
+    st.env["cls"] = ModV("SeismicRecording3C", {"_from_dict": FuncV(lambda ex_, st_, a, k, n_: Tup((StrV("<_from_dict of>"), a[0])), "_from_dict")})
+    return []
+
+
+LOAD = Contract(qual="hvsrpy.seismic_recording_3c.SeismicRecording3C.load", params=["cls", "fname"], make_inputs=_load_inputs, modifies=[],
+                ghost={"loaded": FuncV(lambda ex, st, a, k, n_: z3.BoolVal(isinstance(a[0], Tup) and a[0][1] is st.env["__file_content"]
+                                                                             and st.heap[st.env["__loaded_from"].oid].fields["name"] is st.env["fname"]
+                                                                             and st.heap[st.env["__loaded_from"].oid].fields["mode"].s == "r"), "loaded")},
+                ensures=["loaded(result)"], notes="the recording is _from_dict of exactly what json.load returns for the file of the name given")
+LOAD.ghost_state = ("__loaded_from",)
+TASKS.append(FunctionTask(LOAD, module_env={"open": FuncV(_m_open, "open"), "json": ModV("json", {"load": FuncV(_m_json_load, "json.load")})},
+                          clauses=["load builds the recording from the stored dictionary"]))
+
 META = dict(
     level="other",
     explanation="proved: TimeSeries.__init__ / from_timeseries give the object fresh sample storage with equal content; n_samples, fs, fnyq, time; trim keeps "
